@@ -991,7 +991,7 @@ class Live:
             if mode == 'same':
                 idmap = lambda ids: ids  # noqa: E731
                 rec.fault('same_process_unpickle')
-            elif collide:
+            elif collide and hasattr(getattr(other.ctxs[0], '_Properties', None), '_id'):
                 tgt = other.ctxs[0]
                 ids = (tgt._Properties._id, tgt._Objects._id)
                 idmap = lambda _ids: ids  # noqa: E731
@@ -1054,7 +1054,11 @@ class Live:
                 return ()
             H['gen'] = iter(out.value)
         elif hk == 'lindig':
-            out = call(sl.ctxs[w % len(sl.ctxs)]._lattice)
+            src = sl.ctxs[w % len(sl.ctxs)]
+            if not hasattr(src, '_lattice'):   # the anchored seam is gone: nothing to schedule
+                rec.log('noop')
+                return ()
+            out = call(src._lattice)
             self.need(out.ok, 'lindig_generator', lambda: out.text())
             H['gen'] = out.value
             H['records'] = []
